@@ -306,6 +306,8 @@ func genData(t *testing.T, tr *vhlib.Trace, r *vhlib.Rand, n int, defects bool) 
 		case x < 45:
 			k := r.Intn(nroots)
 			w.doStoreTemp(k, uint64(20+r.Intn(30)))
+			// referenced at once, not fsynced: no power loss until the next Sync (known finding otherwise)
+			acked[k] = false
 		case x < 60:
 			if refs := referenced(); len(refs) > 0 && !r.Chance(1, 5) {
 				w.doRead(refs[r.Intn(len(refs))])
